@@ -4,7 +4,9 @@ independent structural walk."""
 import numpy as np
 import pandas
 from hypothesis import strategies as st
+from sklearn.cluster import KMeans
 from sklearn.compose import ColumnTransformer
+from sklearn.discriminant_analysis import LinearDiscriminantAnalysis
 from sklearn.decomposition import PCA
 from sklearn.impute import SimpleImputer
 from sklearn.linear_model import LinearRegression, LogisticRegression
@@ -13,7 +15,8 @@ from sklearn.preprocessing import MinMaxScaler, PolynomialFeatures, StandardScal
 from sklearn.tree import DecisionTreeClassifier, DecisionTreeRegressor
 
 LEAVES = ["StandardScaler", "MinMaxScaler", "SimpleImputer", "PolynomialFeatures", "PCA"]
-PREDICTORS = ["LinearRegression", "DecisionTreeRegressor", "LogisticRegression", "DecisionTreeClassifier"]
+# KMeans is a predictor that ALSO offers transform
+PREDICTORS = ["LinearRegression", "DecisionTreeRegressor", "LogisticRegression", "DecisionTreeClassifier", "KMeans", "KMeans"]
 
 
 def leaf_out(kind, n_in, param):
@@ -136,7 +139,9 @@ def build(spec):
     if t == "predictor":
         return {"LinearRegression": LinearRegression, "LogisticRegression": lambda: LogisticRegression(max_iter=200),
                 "DecisionTreeRegressor": lambda: DecisionTreeRegressor(max_depth=2, random_state=0),
-                "DecisionTreeClassifier": lambda: DecisionTreeClassifier(max_depth=2, random_state=0)}[spec["k"]]()
+                "DecisionTreeClassifier": lambda: DecisionTreeClassifier(max_depth=2, random_state=0),
+                "KMeans": lambda: KMeans(n_clusters=2, n_init=1, random_state=0),
+                "LinearDiscriminantAnalysis": lambda: LinearDiscriminantAnalysis()}[spec["k"]]()
     if t == "pipeline":
         return Pipeline([(_name("s"), build(s)) for s in spec["steps"]])
     if t == "union":
@@ -175,7 +180,7 @@ def make_data(case):
     else:
         data = A
     n = len(A)
-    if case["predictor"] in ("LogisticRegression", "DecisionTreeClassifier"):
+    if case["predictor"] in ("LogisticRegression", "DecisionTreeClassifier", "LinearDiscriminantAnalysis"):
         y = np.array([i % 2 for i in range(n)])
     else:
         y = A.sum(axis=1) + np.arange(n) * 0.5
